@@ -41,6 +41,12 @@ let () =
   register "P" (fun _ _ a -> match a with
     | [i] -> fifo := M.purge !fifo (n_of_string i)
     | _ -> failwith "P args");
+  register "PV" (fun ln line a -> match a with
+    | i :: _ :: vs -> incr checked;
+        let (m, q') = M.purge_values !fifo (n_of_string i) in
+        fifo := q';
+        if not (nlist_eq m (List.map n_of_string vs)) then mismatch ln line ("model purge_values=" ^ show_nlist m)
+    | _ -> failwith "PV args");
   register "C" (fun _ _ _ -> fifo := M.close !fifo);
   (* ----- HEAP ----- *)
   register "HEAP" (fun _ _ _ -> heap := M.new_pq);
@@ -70,5 +76,11 @@ let () =
         if not (nlist_eq m (List.map n_of_string vs)) then mismatch ln line ("model values=" ^ show_nlist m)
     | _ -> failwith "HV args");
   register "HP" (fun _ _ _ -> heap := M.ppurge !heap);
+  register "HPV" (fun ln line a -> match a with
+    | _ :: vs -> incr checked;
+        let (m, q') = M.ppurge_values !heap in
+        heap := q';
+        if not (nlist_eq m (List.map n_of_string vs)) then mismatch ln line ("model purge_values=" ^ show_nlist m)
+    | _ -> failwith "HPV args");
   register "HC" (fun _ _ _ -> heap := M.pclose !heap)
 
